@@ -157,8 +157,12 @@ def cone_step_lengths(rep, F, E, tag, rid):
 
 
 def composite_order(rep, F, tag, rid):
-    R = rep.rule(rid, 'CompositeCone::step_length: symmetric cones first, then the max_step_fraction cap iff '
-                      'some cone is nonsymmetric, then nonsymmetric cones')
+    """Either pass order satisfies the property (the result is the minimum over all cones and the cap only shortens),
+    and the code on the pinned tree runs the *nonsymmetric* cones first, contrary to its own comment - so no order is
+    demanded: what must hold is that the two passes are complementary (every cone examined exactly once) and that
+    the max_step_fraction cap is applied exactly when some cone is nonsymmetric."""
+    R = rep.rule(rid, 'CompositeCone::step_length: two complementary passes cover every cone once; the max_step_fraction cap is '
+                      'applied iff some cone is nonsymmetric')
 
     def body():
         f = F.one(name='step_length', adt='CompositeCone', trait='Cone')
@@ -176,25 +180,22 @@ def composite_order(rep, F, tag, rid):
             while a[0] in ('ref', 'deref'):
                 a = a[1]
             flags.append(canon(a[2][1]) if a[0] == 'agg' else '?')
-        order_ok = f.dominates(calls[0].bb, calls[1].bb)
-        R.check(order_ok and flags == ['true', 'false'], 'pass-order' + tag,
-                'passes are invoked with symcond=%s (in dominance order): expected symmetric (true) first, then '
-                'nonsymmetric (false)' % flags, f.loc(calls[0].sp))
-        # in the closure: a cone is skipped when cone.is_symmetric() == symcond
+        pd = f.postdominators()
+        R.check(sorted(flags) == ['false', 'true'] and all(c.bb in pd.get(0, set()) for c in calls), 'pass-order' + tag,
+                'the two passes are invoked with symcond=%s: they must be complementary (true and false) and both run on every path, '
+                'otherwise some cones never limit the step' % flags, f.loc(calls[0].sp))
+        # in the closure: a cone is skipped on a comparison of cone.is_symmetric() with symcond
         g = clos[0]
         sk = [canon(('bin', st['rv']['op'], g.sym_operand(st['rv']['a']), g.sym_operand(st['rv']['b'])))
               for bi, si, st in g.assignments() if st['rv']['k'] == 'bin' and st['rv']['op'] in ('Eq', 'Ne')]
-        R.check(any('is_symmetric(' in x and 'arg3' in x and x.startswith('eq(') for x in sk), 'skip-test' + tag,
-                'the inner pass does not skip cones with is_symmetric() == symcond (tests: %s)' % sk, g.loc())
-        # the cap between the passes
+        R.check(any('is_symmetric(' in x and 'arg3' in x and x.startswith(('eq(', 'ne(')) for x in sk), 'skip-test' + tag,
+                'the inner pass does not select cones by comparing is_symmetric() with symcond (tests: %s)' % sk, g.loc())
+        # the cap
         mins = [c for c in f.calls if c.callee.name == 'min']
         caps = [c for c in mins if 'max_step_fraction' in canon(f.sym_operand(c.args[0])) + canon(f.sym_operand(c.args[1]))]
         R.check(len(caps) == 1, 'cap-present' + tag, 'min(max_step_fraction, alpha) appears %d times' % len(caps), f.loc())
         if len(caps) == 1:
             cap = caps[0]
-            R.check(f.dominates(calls[0].bb, cap.bb) and not f.dominates(calls[1].bb, cap.bb) and
-                    not f.paths_exist_avoiding(calls[1].bb, cap.bb, []), 'cap-between' + tag,
-                    'the max_step_fraction cap is not placed between the symmetric and the nonsymmetric pass', f.loc(cap.sp))
             for val, ret, ev, tr in Walker(f).leaves():
                 k = [x for x in val if 'is_symmetric(' in x]
                 if not k:
@@ -345,3 +346,75 @@ def interior_shift(rep, F, tag, rid):
         R.check(ok, 'composite-forward' + tag, 'CompositeCone::scaled_unit_shift does not forward (alpha, pd) unchanged to every cone', sh.loc())
 
     R.guard(body)
+
+
+def soc_scalar_cap(rep, F, tag, rid):
+    """_step_length_soc_component: the step may not take the scalar part x0 + alpha*y0 below zero.  The quadratic
+    root computation has three early exits that return alpha_max unchanged (complex roots, a == 0, c == 0): they are
+    safe only because alpha_max was capped by -x0/y0 beforehand.  Every returning path must have decided the guard
+    (x0 >= 0 and y0 < 0) and, when it holds, have applied the cap before it returns."""
+    R = rep.rule(rid, 'second-order cone step length: the scalar-part cap min(alpha_max, -x0/y0) is applied before every return')
+
+    def body():
+        f = F.one(name='_step_length_soc_component')
+        n = capped = 0
+        for val, ret, ev, tr in Walker(f, cut_loops=True).leaves():
+            if ret[0] == 'diverge':
+                continue
+            n += 1
+            g1 = [v for k, v in val.items() if k in ('le(zero(), arg1[0_usize])', 'lt(zero(), arg1[0_usize])')]
+            g2 = [v for k, v in val.items() if k in ('lt(arg2[0_usize], zero())',)]
+            if not g1 and not g2:
+                R.bad('guard-decided|%s%s' % (ret[1][:24], tag), 'a path returns %s without having tested whether the scalar part limits the step' % (ret[1],), f.loc())
+                continue
+            if g1 and g1[0] and g2 and g2[0]:
+                caps = [e for e in ev if e[0] == 'call' and e[1] == 'min' and 'div(neg(arg1[0_usize]), arg2[0_usize])' in e[2]]
+                capped += 1
+                R.check(len(caps) >= 1, 'cap-applied|%s%s' % (ret[1][:24], tag),
+                        'with x0 >= 0 and y0 < 0 a path returns %s without alpha_max = min(alpha_max, -x0/y0): the step can leave the cone through its scalar part' % (ret[1],), f.loc())
+        R.check(n >= 10 and capped >= 3, 'paths' + tag, 'only %d returning paths (%d with an active scalar cap) analysed' % (n, capped), f.loc())
+
+    R.guard(body)
+
+
+def soc_linear_case(rep, F, tag, rid):
+    """_step_length_soc_component solves a alpha^2 + b alpha + c = 0 (c > 0 at an interior point).  When a == 0 the
+    equation is linear: for b < 0 its root -c/b is positive and limits the step (direction on the boundary of -K),
+    for b >= 0 there is no positive root.  A path that returns alpha_max under a == 0 without having decided the
+    sign of b lets the step leave the cone (x = (1,0,0), y = (-1,1,0): boundary at 0.5, alpha_max = 1)."""
+    R = rep.rule(rid, 'second-order cone step length: the degenerate case a == 0 is limited by the single root -c/b when b < 0')
+
+    def body():
+        f = F.one(name='_step_length_soc_component')
+        n = 0
+        for val, ret, ev, tr in Walker(f, cut_loops=True).leaves():
+            if ret[0] == 'diverge':
+                continue
+            a0 = [v for k, v in val.items() if k in ('eq(_soc_residual(arg2), zero())', 'eq(var:a, zero())')]
+            if not a0 or not a0[0]:
+                continue
+            n += 1
+            bneg = [(k, v) for k, v in val.items() if _re_b.fullmatch(k)]
+            key = 'linear|%s|%s' % (ret[1][:28], ','.join('%d' % v for k, v in bneg))
+            if not bneg:
+                R.bad('b-sign-decided|%s%s' % (ret[1][:28], tag),
+                      'under a == 0 a path returns %s without testing the sign of b: for b < 0 the step must be limited by the root -c/b '
+                      '(direction on the boundary of -K), e.g. x = (1,0,0), y = (-1,1,0) returns 1 where the boundary is at 1/2' % (ret[1],), f.loc())
+                continue
+            k, v = bneg[0]
+            isneg = bool(v) if k.startswith('lt(') else (not bool(v))
+            if isneg:
+                caps = [e for e in ev if e[0] == 'call' and e[1] == 'min' and _re_root.search(e[2])]
+                R.check(len(caps) >= 1 and ret[1] != 'arg3', key + tag,
+                        'under a == 0 and b < 0 the path returns %s, expected min(alpha_max, -c/b)' % (ret[1],), f.loc())
+            else:
+                R.ok(key + tag, {'returns': ret[1]})
+        R.check(n >= 1, 'a==0-paths' + tag, 'no returning path with a == 0 found (anchor drift)', f.loc())
+
+    R.guard(body)
+
+
+import re as _re_mod
+_B = r'mul\(2f64, sub\(mul\(arg1\[0_usize\], arg2\[0_usize\]\), dot\(index\(arg1, RangeFrom::RangeFrom\(1_usize\)\), index\(arg2, RangeFrom::RangeFrom\(1_usize\)\)\)\)\)'
+_re_b = _re_mod.compile(r'(lt\((%s|var:b), zero\(\)\)|le\(zero\(\), (%s|var:b)\))' % (_B, _B))
+_re_root = _re_mod.compile(r'(div\(neg\(.*\), .*\)|neg\(div\(.*\)\)|div\(.*, neg\(.*\)\))')
